@@ -38,6 +38,9 @@ POOL = {
     "cap_in_docstring": "Feature: f\n" + "".join(" bad %d\n Scenario: s\n" % i for i in range(10)) + "  Given x\n   \"\"\"\n   never closed\n",
     "doc_q": "Feature: f\n Scenario: s\n  Given x\n   \"\"\"md\n    body\n   \"\"\"\n  And y\n   | a |\n",
     "doc_b": "Feature: f\n Background:\n  Given x\n    ```\n    body\n    ```\n Scenario: s\n  Then y\n   | b | c |\n",
+    "en_hdr": "# language: en\nFeature: f\n Scenario: s\n  Given x\n",
+    "fr_plain": "Fonctionnalité: f\n Scénario: s\n  Soit x\n  Et y\n",
+    "tagws_lookahead": "Feature: f\n Scenario: s\n  Given x\n @ok\n # c\n @needs review\n Scenario: t\n",
     "pirate_hdr_doc": "# language: en-pirate\nAhoy matey!: f\n  Heave to: s\n    Gangway! x\n      \"\"\"json\n      {}\n      \"\"\"\n",
 }
 PERTURBING = {"ragged_then_tags", "cap_in_docstring", "fr_hdr", "open_q", "open_b", "cap", "pending_tags", "bad_lang", "ragged", "deep", "tagws", "pirate_hdr_doc", "q_in_desc"}
